@@ -12,11 +12,11 @@ def shapes(maxfrag, frag):
 def configs(tier):
     if tier == "quick":
         return [
-            {"name": "sb4096-f7", "sb": 4096, "lens": shapes, "atts": [0, 3], "maxfault": 7, "mixes": [2]},
+            {"name": "sb4096-f7", "sb": 4096, "lens": shapes, "atts": [0, 3], "maxfault": 7, "mixes": [2], "hard": [1, 2, 3, 4]},
             {"name": "sys-f3", "sb": None, "lens": shapes, "atts": [0, 3], "maxfault": 3, "mixes": [2]},
         ]
     return [
-        {"name": "sb4096-f10", "sb": 4096, "lens": shapes, "atts": [0, 3], "maxfault": 10, "mixes": [2, 3]},
+        {"name": "sb4096-f10", "sb": 4096, "lens": shapes, "atts": [0, 3], "maxfault": 10, "mixes": [2, 3], "hard": [1, 2, 3, 4, 5, 6]},
         {"name": "sb8192-f10", "sb": 8192, "lens": shapes, "atts": [0, 3], "maxfault": 10, "mixes": [2]},
         {"name": "sb20000-f10", "sb": 20000, "lens": shapes, "atts": [0, 1, 3], "maxfault": 10, "mixes": [2]},
         {"name": "sb5001-f9", "sb": 5001, "lens": shapes, "atts": [0, 3], "maxfault": 9, "mixes": [3]},
